@@ -276,8 +276,34 @@ CLAIMED["C09"] = (
 NOT_YET = "check not built yet in this round (planned: see DESIGN.md section for this property)"
 NA = {}
 
+# what was added to a check after its description above was written
+ADDENDA = {
+    "C01": "A quarter of the file jobs save in the package-folder form of Document.save.",
+    "C02": "Saves take either form of Document.save (zip file / package folder: Lifecycle.tla carries the form of every file; FormBlind, RefusalKeeps; "
+           "package over package, refused crossings; PackageDropsLooseFiles refuted).",
+    "C03": "Counts of zero (insert / delete nothing) are part of the generated and the random histories.",
+    "C05": "Varint.tla opens up the varint in front of every segment (RoundTrip, Minimal, Framed for all values below B^3; StopOneLate refuted); every carry "
+           "pattern of the model is materialised as a real ArchiveInfo header length (127/128/129, 16383..16385, 16511/16512 ...).",
+    "C07": "A third of the cases write one of the two saves as a package folder; Package.tla also carries the data-file registry (DataClosed: a data "
+           "reference names a registered data item whose file is in the package; DataNotRegistered / DataFileNotStored refuted).",
+    "C08": "Exact integer literals beyond 2^53 and nodes that render nothing (whitespace nodes anywhere in the node array; WhitespacePops refuted) are included.",
+    "C09": "Also: table / sheet / label names that need quoting, rectangles stored as two cell references joined by a COLON_NODE, host cells that moved after "
+           "the reference was stored, labels re-read after structural edits of the target table, and tables with labels on both axes (RefLabels.tla xlab; "
+           "CrossAxisIgnored refuted).",
+    "C11": "Every second iterator probe passes its bounds positionally in the documented order.",
+    "C12": "Write covers placeholders (the value is not kept); fixture tables are also edited until no merged rectangle is left.",
+    "C13": "Magnitudes down to 1e-290 (automatic decimals shown with an exponent).",
+    "C15": "Borders.tla has Touch steps between strokes (Table.write on the cells along the line, merge_cells elsewhere; TouchForgetsBorders refuted); Styles.tla "
+           "has the document's preset styles (PresetKeepsCellStyle refuted); colour twins whose decimal digits run together, font-only styles and presets "
+           "applied over a styled cell; a quarter of the style histories go through the package form.",
+    "C17": "Fault zip-feature: an intact zip that asks for what zipfile does not do (version needed above 6.3, unknown method, encrypted member, patched data).",
+    "C18": "Error literals in other letter cases; reference texts with names that need quoting.",
+    "C20": "Whole numbers beyond the decimal128 coefficient (34 digits, e33..e300).",
+}
 checks = []
 for pid, (tech, text, note, ref) in sorted(CLAIMED.items()):
+    if pid in ADDENDA:
+        text = text + " " + ADDENDA[pid]
     checks.append({
         "property_id": pid,
         "quick_cmd": "./check %s --tier quick" % pid,
